@@ -19,7 +19,9 @@ import multiprocessing
 VERIF = os.path.dirname(os.path.dirname(os.path.abspath(__file__)))
 LEAN = os.path.join(VERIF, 'lean')
 REPO = os.environ.get('VERIF_REPO', '/repo')
-EVIDENCE = os.path.join(VERIF, 'evidence')
+# runs against a scratch copy (VERIF_REPO=…, used to test the machinery on mutants) must not overwrite the
+# evidence of /repo itself
+EVIDENCE = os.path.join(VERIF, 'evidence' if os.path.realpath(REPO) == '/repo' else 'evidence-scratch')
 REPLAYS = os.path.join(VERIF, 'replays')
 ALLOWED_AXIOMS = {'propext', 'Classical.choice', 'Quot.sound'}
 FORBIDDEN = re.compile(
